@@ -22,6 +22,7 @@ package tsoutil
 //@ func ComposeTS
 //@   props C01
 //@   ensures [compose] 0 <= physical && physical < 70368744177664 && 0 <= logical && logical < 262144 ==> result == physical * 262144 + logical
+//@   ensures [decompose] 0 <= physical && physical < 8796093022208 && 0 <= logical && logical < 262144 ==> result / 262144 == physical && result % 262144 == logical && result < 18446744073709551616 / 4
 //@   modifies nothing
 
 //@ func ParseTS
@@ -30,11 +31,16 @@ package tsoutil
 //@   ensures [physical] unixnano(r0) == (ts / 262144) * 1000000
 //@   modifies nothing
 
+// A nil timestamp reads as (0, 0) (the generated getters are nil-safe).
+//@ pure tsP(x *pdpb.Timestamp) = ite(x == nil, 0, x.Physical)
+//@ pure tsL(x *pdpb.Timestamp) = ite(x == nil, 0, x.Logical)
+//@ pure tsGT(a *pdpb.Timestamp, b *pdpb.Timestamp) = tsP(a) > tsP(b) || (tsP(a) == tsP(b) && tsL(a) > tsL(b))
+//@ pure tsEQ(a *pdpb.Timestamp, b *pdpb.Timestamp) = tsP(a) == tsP(b) && tsL(a) == tsL(b)
+//@ pure tsGE(a *pdpb.Timestamp, b *pdpb.Timestamp) = tsGT(a, b) || tsEQ(a, b)
 //@ func CompareTimestamp
-//@   props C01
-//@   requires tsoOne != nil && tsoTwo != nil
-//@   ensures [gt] (tsoOne.Physical > tsoTwo.Physical || (tsoOne.Physical == tsoTwo.Physical && tsoOne.Logical > tsoTwo.Logical)) <==> result == 1
-//@   ensures [eq] (tsoOne.Physical == tsoTwo.Physical && tsoOne.Logical == tsoTwo.Logical) <==> result == 0
+//@   props C01 C05
+//@   ensures [gt] tsGT(tsoOne, tsoTwo) <==> result == 1
+//@   ensures [eq] tsEQ(tsoOne, tsoTwo) <==> result == 0
 //@   ensures [lt] result == 1 || result == 0 || result == 0 - 1
 //@   modifies nothing
 
